@@ -10,8 +10,10 @@ C01-r42 C02-r41 C02-r42 C04-r33 C05-r31 C05-r32 C05-r33 C08-r31 C08-r32 C08-r33 
 C16-r42 C16-r43 C07-r33 C15-r33 C20-r21 C16-r41
 C18-r22 C08-r43 C05-r43 C13-r42 C13-r43 C13-r44 C12-r44
 C20-r32 C20-r33 C20-r34 C14-r41 C06-r41 C06-r43 C06-r44 C09-r41 C09-r42 C09-r44 C16-r53 C16-r54
-C03-r51 C03-r52 C01-r51 C01-r54 C02-r51 C02-r53 C02-r54""".split()
+C03-r51 C03-r52 C01-r51 C01-r54 C02-r51 C02-r53 C02-r54
+C02-r62 C03-r61 C07-r61 C08-r62 C09-r61 C14-r61""".split()
 LIMITS = {
+ "C02-r61": "the vertex rings of extrude.makeShape range over a conditionally shortened copy of the path while the index rows range over the path itself: the ring count is a phi of two slice lengths multiplied by the length of a callee's result (ProjectFace), which GEN-BOUND does not follow (its witnesses range over parameters and their lengths only); comparing the two loops' sources by SSA identity would also fire on correct variants, so no rule was added",
  "C09-r44": "a wrong radius inside sdf.RoundedCone: the distance functions are C19's clause (SDF-FORM reports this seed); C09 carries the dependency obligation SDF-REF (marching may only call sdf functions C19 decides)",
  "C16-r53": "the law of geometry.AABB.EncapsulateBounds is C17's clause (BOX-1 reports this seed); C16's BND-1 takes the box operations as given",
  "C16-r54": "the narrowing protocol of a consumer of TraverseIntersectingRay (rendering/mesh.go, outside the property's anchors): whether a caller may rely on *max being shared between sibling cells is not a structural clause of the index",
